@@ -170,7 +170,7 @@ func c13(e *Env) {
 	for _, pr := range collidingPairs(e.Seed) {
 		for _, left := range []bool{false, true} {
 			for _, txt := range []string{pr[0], pr[1], pr[0]} {
-				w := ref.FixWrite(txt, 12, ' ', left)
+				w := ref.FixWrite(txt, len(txt)+4, ' ', left)
 				c.read(w, ' ', left)
 			}
 		}
